@@ -112,8 +112,8 @@ theorem any_iff_contains (st : IState) (l : List Nat) (a : SA) :
         have h2 : (a == b) = false := by simpa using hab
         simp [h1, h2]
 
-theorem ownStep_eff (e : Entity) (p : IState × Option (List Nat)) (a : Attr) (h : HeadOK p.1) :
-    Eff p.1 (ownStep e p a).1
+theorem ownStep_eff (ro : Attr → Option String) (e : Entity) (p : IState × Option (List Nat)) (a : Attr) (h : HeadOK p.1) :
+    Eff p.1 (ownStep ro e p a).1
       (fun d => ins d { owner := e.name, name := dictAttrName a, kind := attrDKind a }) := by
   obtain ⟨st, cur⟩ := p
   simp only at h
@@ -151,7 +151,7 @@ theorem ownStep_eff (e : Entity) (p : IState × Option (List Nat)) (a : Attr) (h
       · have := h j h1; simp; omega
       · simp at h1; simp [h1]
   have e2 : Eff st st2 (fun d => ins d sa) := ⟨hok2, hext1, hhead2⟩
-  show Eff st (ownStep e (st, cur) a).1 (fun d => ins d sa)
+  show Eff st (ownStep ro e (st, cur) a).1 (fun d => ins d sa)
   unfold ownStep
   simp only [IState.newObj]
   by_cases hr : a.redecl.isSome = true
@@ -164,16 +164,16 @@ theorem ownStep_eff (e : Entity) (p : IState × Option (List Nat)) (a : Attr) (h
   · simp only [hr]
     exact e2
 
-theorem ownLoop_eff (e : Entity) (st : IState) (cur : Option (List Nat)) (h : HeadOK st) :
-    Eff st (ownLoop e st cur).1 (fun d => insAll d (ownSAs e)) := by
+theorem ownLoop_eff (ro : Attr → Option String) (e : Entity) (st : IState) (cur : Option (List Nat)) (h : HeadOK st) :
+    Eff st (ownLoop ro e st cur).1 (fun d => insAll d (ownSAs e)) := by
   unfold ownLoop ownSAs
   generalize e.attrs.filter (fun a => a.kind == .explicit) = l
   induction l generalizing st cur with
   | nil => exact ⟨h, Ext.refl st, rfl⟩
   | cons a as ih =>
     simp only [List.foldl_cons, List.map_cons]
-    have e1 := ownStep_eff e (st, cur) a h
-    have e2 := ih (ownStep e (st, cur) a).1 (ownStep e (st, cur) a).2 e1.ok
+    have e1 := ownStep_eff ro e (st, cur) a h
+    have e2 := ih (ownStep ro e (st, cur) a).1 (ownStep ro e (st, cur) a).2 e1.ok
     have := e1.comp e2
     simpa [insAll_cons] using this
 
@@ -188,7 +188,7 @@ theorem ctorWF_succ (s : Schema) (f : Nat) (n : String) (st : IState) (cur : Lis
           | [] => (st, cur)
           | p :: _ => ctorWF s f p st cur
         let st2 := e.supers.tail.foldl (fun st q => (ctorWF s f q st []).1) p1.1
-        let r := ownLoop e st2 (some p1.2)
+        let r := ownLoop (redefOwner s) e st2 (some p1.2)
         let l := r.2.getD []
         (applyDerived r.1 l (derivedCalls s n), l) := rfl
 
@@ -201,7 +201,7 @@ theorem ctorNF_succ (s : Schema) (f : Nat) (n : String) (st : IState) :
           | [] => st
           | p :: _ => ctorNF s f p st
         let st2 := e.supers.tail.foldl (fun st q => (ctorWF s f q st []).1) st1
-        let r := ownLoop e st2 none
+        let r := ownLoop (redefOwner s) e st2 none
         applyDerived r.1 r.1.head (derivedCalls s n) := rfl
 
 theorem fold_parts_eff (s : Schema) (f : Nat)
@@ -237,16 +237,16 @@ theorem ctorWF_eff (s : Schema) (f : Nat) :
       cases hs : e.supers with
       | nil =>
         simp only [List.tail_nil, List.foldl_nil]
-        have e1 := ownLoop_eff e st (some cur) h
-        have e2 := applyDerived_eff (derivedCalls s n) _ e1.ok ((ownLoop e st (some cur)).2.getD [])
+        have e1 := ownLoop_eff (redefOwner s) e st (some cur) h
+        have e2 := applyDerived_eff (derivedCalls s n) _ e1.ok ((ownLoop (redefOwner s) e st (some cur)).2.getD [])
         exact e1.comp e2
       | cons p ps =>
         simp only [List.tail_cons, List.foldl_cons]
         have e0 := ih p st cur h
         have e1 := fold_parts_eff s f ih ps _ e0.ok
-        have e2 := ownLoop_eff e _ (some (ctorWF s f p st cur).2) e1.ok
+        have e2 := ownLoop_eff (redefOwner s) e _ (some (ctorWF s f p st cur).2) e1.ok
         have e3 := applyDerived_eff (derivedCalls s n) _ e2.ok
-          ((ownLoop e (ps.foldl (fun st q => (ctorWF s f q st []).1) (ctorWF s f p st cur).1)
+          ((ownLoop (redefOwner s) e (ps.foldl (fun st q => (ctorWF s f q st []).1) (ctorWF s f p st cur).1)
             (some (ctorWF s f p st cur).2)).2.getD [])
         exact ((e0.comp e1).comp e2).comp e3
 
@@ -270,16 +270,16 @@ theorem ctorNF_eff (s : Schema) (f : Nat) :
       cases hs : e.supers with
       | nil =>
         simp only [List.tail_nil, List.foldl_nil]
-        have e1 := ownLoop_eff e st none h
-        have e2 := applyDerived_eff (derivedCalls s n) _ e1.ok (ownLoop e st none).1.head
+        have e1 := ownLoop_eff (redefOwner s) e st none h
+        have e2 := applyDerived_eff (derivedCalls s n) _ e1.ok (ownLoop (redefOwner s) e st none).1.head
         exact e1.comp e2
       | cons p ps =>
         simp only [List.tail_cons, List.foldl_cons]
         have e0 := ih p st h
         have e1 := fold_parts_eff s f (ctorWF_eff s f) ps _ e0.ok
-        have e2 := ownLoop_eff e _ none e1.ok
+        have e2 := ownLoop_eff (redefOwner s) e _ none e1.ok
         have e3 := applyDerived_eff (derivedCalls s n) _ e2.ok
-          (ownLoop e (ps.foldl (fun st q => (ctorWF s f q st []).1) (ctorNF s f p st)) none).1.head
+          (ownLoop (redefOwner s) e (ps.foldl (fun st q => (ctorWF s f q st []).1) (ctorNF s f p st)) none).1.head
         exact ((e0.comp e1).comp e2).comp e3
 
 end StepModel.GenCxx
